@@ -75,7 +75,7 @@ def blockwise_x_consistent(pair, max_block_mem, kernel_shape, rtol=1e-5):
     return True
 
 
-def block_x_validity_diffs(src_fn, ref_fn, max_block_mem, kernel_shape):
+def block_x_validity_diffs(src_fn, ref_fn, max_block_mem, kernel_shape, overlap=None):
     """Reference-grid (row, col) positions - in the parameter image's frame - where some block's down-sampled source is valid and the
     whole-window down-sampled source is not, or vice versa (a sliver-overlap artefact of GDAL's average resampling: finding D10)."""
     from homonim.raster_pair import RasterPairReader
@@ -85,7 +85,7 @@ def block_x_validity_diffs(src_fn, ref_fn, max_block_mem, kernel_shape):
     x, rw = source_on_proc_grid(src_fn, ref_fn)
     out = set()
     with RasterPairReader(src_fn, ref_fn, proc_crs=ProcCrs.ref) as rd:
-        for bp in rd.block_pairs(overlap=utils.overlap_for_kernel(tuple(kernel_shape)), max_block_mem=max_block_mem):
+        for bp in rd.block_pairs(overlap=utils.overlap_for_kernel(tuple(kernel_shape)) if overlap is None else overlap, max_block_mem=max_block_mem):
             src_ra, ref_ra = rd.read(bp)
             xb = np.array(src_ra.reproject(**ref_ra.proj_profile, resampling=Resampling.average).array)
             w = bp.ref_in_block
